@@ -1,1 +1,247 @@
-/- C13 property theorems (stub: not built yet) -/
+import ThriftVerif.Gen.Mask
+import ThriftVerif.Gen.MaskLemmas
+import ThriftVerif.Generated.C13
+/-
+  C13 — field-mask filtered serialization emits exactly the selected data.
+  Property theorems over `Gen.Mask` (the model of the code generated with `with_field_mask`), the field-mask library model of
+  C14 (`Lib.FieldMask`: the answers of Field/Int/Str/All, white and black) and `Gen.Std` / `Core.Wire`.
+  All statements hold for EVERY mask value (any trie, white or black, built by NewFieldMask or not), every `Sites`
+  configuration of the library, every schema and value, unless a hypothesis says otherwise.  `Tpl` is the shape of the
+  templates (`Tpl.asFound` on the tree this was written against; `Generated.C13.tpl` is re-read from the templates on every run).
+-/
+namespace Props.C13
+open Wire Gen Gen.Std Gen.Mask
+open FieldMask (MaskOpt Sites Mask Kids Key)
+
+/-! ## the pre-count loops -/
+
+/-- FieldWriteMap: the announced count is the number of selected keys (the loop ranges over the keys and leaves the bound alone). -/
+theorem precount_map {α} (ex : α → Bool) (keys : List α) : precountKeys ex keys = (keys.filter ex).length :=
+  precountKeys_eq ex keys
+
+/-- the repaired list/set loop `for i := 0; i < len(x); i++ { if !ex { l-- } }` announces the number of selected indices. -/
+theorem precount_list_repaired (T : Tpl) (hT : T.preMut = false) (ex : Nat → Bool) (n : Nat) :
+    precountList T ex n = ((List.range n).filter ex).length := by
+  simp [precountList, hT, precountFix_count, cnt_range]
+
+/- `precount_list` (FULL STATEMENT, FALSE on the tree as found):
+     ∀ T ex n, precountList T ex n = ((List.range n).filter ex).length
+   The loop as coded (`l := n; for i := 0; i < l; i++ { if !ex(i) { l-- } }`) compares `i` with the bound it is decrementing,
+   so it stops before it has seen all indices. -/
+example : precountList Tpl.asFound (fun i => i == 0) 3 = 2 ∧ ((List.range 3).filter (fun i => i == 0)).length = 1 := by decide
+example : precountList Tpl.asFound (fun _ => false) 2 = 1 ∧ ((List.range 2).filter (fun _ => false)).length = 0 := by decide
+example : ¬ ∀ (T : Tpl) (ex : Nat → Bool) (n : Nat), precountList T ex n = ((List.range n).filter ex).length :=
+  fun h => absurd (h Tpl.asFound (fun _ => false) 2) (by decide)
+
+/-- what does hold for the loop whatever its shape: it never announces FEWER elements than are written (so a reader waits for
+elements that never come), and it is right when nothing is filtered. -/
+theorem precount_list_partial (T : Tpl) (ex : Nat → Bool) (n : Nat) :
+    ((List.range n).filter ex).length ≤ precountList T ex n ∧
+    ((∀ j, j < n → ex j = true) → precountList T ex n = n) := by
+  constructor
+  · rw [cnt_range]
+    unfold precountList
+    split
+    · have h := precountMut_ge ex n 0 n
+      have := cnt_not ex n 0
+      simp only [Nat.sub_zero] at h
+      omega
+    · rw [precountFix_count]; exact Nat.le_refl _
+  · intro h
+    unfold precountList
+    split
+    · exact precountMut_all ex n h n 0 (Nat.zero_le _)
+    · rw [precountFix_count, cnt_all]; intro j _ hj; exact h j (by omega)
+
+example : ∃ ex : Nat → Bool, ∀ j, j < 5 → ex j = true := ⟨fun _ => true, fun _ _ => rfl⟩
+
+/-! ## well-formedness -/
+
+/- `masked_write_wellformed` (FULL STATEMENT, FALSE on the tree as found): every list/set/map header count in the output of a
+   masked Write equals the number of elements that follow, i.e. `toM … = .ok m → ∃ w, m.toW? = some w`.
+   Witness (replayed by the directed unit of the harness): `struct S {1: list<i32> l}`, value `l = [10,11,12]`, white mask
+   `$.l[0]`: the list header announces 2 elements, 1 follows. -/
+def exProg : Prog := { structs := [{ kind := 0, fields := [{ id := 1, req := .default, ty := .list .i32, dflt := none }] }] }
+def exLeaf : Mask := .mk .scalar true false .none false .nil false .nil false .nil
+/-- the trie NewFieldMask builds for `$.l[0]` -/
+def exMask : Mask :=
+  .mk .struct false false .none true
+    (.cons (.i 1) (.mk .list false false .none false .nil true (.cons (.i 0) exLeaf .nil) false .nil) .nil) false .nil false .nil
+
+example : Gen.Mask.write exProg Tpl.asFound {} Sites.repaired [] (.some exMask) 0 (.strct [.list [.int 10, .int 11, .int 12]]) =
+    .ok [15, 0, 1, 8, 0, 0, 0, 2, 0, 0, 0, 10, 0] := by rfl
+example : ∃ m, toM exProg Tpl.asFound {} Sites.repaired [] (.some exMask) (.struct 0) (.strct [.list [.int 10, .int 11, .int 12]]) = .ok m ∧
+    m.toW? = none := ⟨_, rfl, by rfl⟩
+/-- with the repaired loop the same input announces 1 -/
+example : Gen.Mask.write exProg Tpl.repaired {} Sites.repaired [] (.some exMask) 0 (.strct [.list [.int 10, .int 11, .int 12]]) =
+    .ok [15, 0, 1, 8, 0, 0, 0, 1, 0, 0, 0, 10, 0] := by rfl
+
+/-- **masked Write is well-formed** once the list/set pre-count loop is repaired, for every mask whose `All()` is honest on
+every sub-mask the code can reach (`Good`: when All() answers true every index and key passes — true of white-list masks,
+false of a black-list mask at the end of a complete path, see docs/C13.md) and every schema whose maps have integer or string
+keys: the bytes are the encoding of a wire value, i.e. every header count is the number of elements that follow. -/
+theorem masked_write_wellformed_partial (P : Prog) (T : Tpl) (O : Opts) (cfg : Sites) (fm : MaskOpt) (sidx : Nat) (obj : GoVal) (bs : Bytes)
+    (hT : T.preMut = false) (hP : KeysOk P) (hg : Good cfg fm) (h : Gen.Mask.write P T O cfg [] fm sidx obj = .ok bs) :
+    ∃ m w, toM P T O cfg [] fm (.struct sidx) obj = .ok m ∧ m.toW? = some w ∧ bs = encW w := by
+  simp only [Gen.Mask.write, Res.bind_eq_ok] at h
+  obtain ⟨m, hm, hb⟩ := h
+  cases hb
+  obtain ⟨w, hw⟩ := toM_wf P T O cfg hT hP obj fm (.struct sidx) m hg rfl hm
+  exact ⟨m, w, hm, hw, (encM_toW m w hw).1⟩
+
+/- non-vacuity: the nil mask is Good, the example schema has no map at all -/
+example : Good Sites.repaired .none := good_none _
+example : KeysOk exProg := by
+  intro i sd h f hf
+  match i, h with
+  | 0, h => simp [exProg, Prog.struct?] at h; subst h; simp at hf; subst hf; rfl
+  | i + 1, h => simp [exProg, Prog.struct?] at h
+
+/-! ## what is written / read: exactly the selected part -/
+
+/-- **masked Write emits exactly the selected elements**, as coded, for every mask (white or black), template shape and option:
+the element loop of a list/set writes precisely the elements whose index the mask passes (`Int(i)` answers true), in order, each
+under the sub-mask `Int(i)` returned; the entry loop of a map writes precisely the entries whose key the mask passes
+(`Int(int(k))` / `Str(string(k))`, `Int(0)` for other key types), the key unmasked, the value under the returned sub-mask. -/
+theorem masked_write_restrict (P : Prog) (T : Tpl) (O : Opts) (cfg : Sites) (fm : MaskOpt) :
+    (∀ (e : Ty) (xs : List GoVal),
+      toMList P T O cfg fm e 0 xs = resMapM (fun p => toM P T O cfg [] p.2 e p.1) (selIdx cfg fm 0 xs)) ∧
+    (∀ (k v : Ty) (kvs : List (GoVal × GoVal)),
+      toMPairs P T O cfg fm k v kvs = resMapM (fun p => do
+        let wa ← toM P T O cfg [] .none k p.1.1
+        let wb ← toM P T O cfg [] p.2 v p.1.2
+        Res.ok (wa, wb)) (selKeys cfg k fm kvs)) :=
+  ⟨fun e xs => toMList_spec P T O cfg fm e xs 0, fun k v kvs => toMPairs_spec P T O cfg fm k v kvs⟩
+
+/-- **masked Read stores exactly the selected part and skips the rest without error.**
+(1) list/set of base-typed elements: whenever the unmasked element reader gets `xs` out of the bytes, the masked loop gets exactly
+the elements whose index the mask passes, out of the same bytes (same remainder).
+(2) a known field the mask rejects is skipped: the object keeps what it held, the required-field flag is raised (no "required field
+not set" error), the loop continues behind the skipped value.
+(3) a known field the mask passes is read under the sub-mask `Field(id)` returned and stored. -/
+theorem masked_read_restrict (S : List StructDef) (cfg : Sites) :
+    (∀ (f : Nat) (e : Ty) (q : Nat → MaskOpt × Bool) (n : Nat) (bs r : Bytes) (xs : List GoVal), e.isBase = true →
+      readListWith (readScalar e) n bs = some (xs, r) →
+      readListM (fun m => readTyM S cfg (f + 1) m e) (skipW e.ttype.code) q n 0 bs =
+        .ok ((xs.zipIdx 0).filterMap (fun p => if (q p.2).2 then some p.1 else none), r)) ∧
+    (∀ (rd : MaskOpt → Ty → Bytes → Res (GoVal × Bytes)) (sm m : MaskOpt) (defs : List FieldDef) (g c id j : Nat) (f : FieldDef)
+       (bs r r' : Bytes) (cur : List GoVal) (seen : List Bool),
+      c ≠ 0 → readN 2 bs = some (id, r) → findField defs id = some (j, f) → f.ty.ttype.code = c →
+      qField cfg sm f.id = .ok (m, false) → skipW c r = some r' →
+      readFieldsM cfg rd sm defs (g + 1) (c :: bs) cur seen = readFieldsM cfg rd sm defs g r' cur (seen.set j true)) ∧
+    (∀ (rd : MaskOpt → Ty → Bytes → Res (GoVal × Bytes)) (sm m : MaskOpt) (defs : List FieldDef) (g c id j : Nat) (f : FieldDef)
+       (bs r r' : Bytes) (v : GoVal) (cur : List GoVal) (seen : List Bool),
+      c ≠ 0 → readN 2 bs = some (id, r) → findField defs id = some (j, f) → f.ty.ttype.code = c →
+      qField cfg sm f.id = .ok (m, true) → rd m f.ty r = .ok (v, r') →
+      readFieldsM cfg rd sm defs (g + 1) (c :: bs) cur seen = readFieldsM cfg rd sm defs g r' (cur.set j v) (seen.set j true)) := by
+  refine ⟨?_, ?_, ?_⟩
+  · intro f e q n bs r xs hb h
+    exact readListM_base S cfg f e hb q n 0 bs r xs h
+  · intro rd sm m defs g c id j f bs r r' cur seen hc hr hf ht hq hs
+    simp [readFieldsM, hc, hr, hf, ht, hq, hs, bind]
+  · intro rd sm m defs g c id j f bs r r' v cur seen hc hr hf ht hq hrd
+    simp [readFieldsM, hc, hr, hf, ht, hq, hrd, bind]
+
+/-! ## nil mask -/
+
+/-- **a nil mask behaves exactly like code generated without the option (Write)**: for every schema, option set, template shape and
+object — well typed or not — the masked Write under a nil mask returns what `Gen.Std.write` (the model of the default templates,
+property C02) returns: the same bytes, the same error, the same panic. -/
+theorem nil_mask_is_std_write (P : Prog) (T : Tpl) (O : Opts) (cfg : Sites) (sidx : Nat) (obj : GoVal) :
+    Gen.Mask.write P T O cfg [] .none sidx obj = Gen.Std.write P sidx obj := by
+  unfold Gen.Mask.write Gen.Std.write
+  rw [toM_nil]
+  cases toW P (.struct sidx) obj <;> simp [Gen.Mask.Res.map, bind, encM_embed]
+
+/-- **a nil mask behaves exactly like code generated without the option (Read)**, on every byte string. -/
+theorem nil_mask_is_std_read (P : Prog) (cfg : Sites) (sidx : Nat) (bs : Bytes) :
+    Gen.Mask.read P cfg .none sidx bs = Res.ofOption (Gen.Std.read P sidx bs) :=
+  read_nil P cfg sidx bs
+
+/-! ## required and non-required fields -/
+
+/-- **a required field is still written**, whatever the mask says: without `field_mask_zero_required` with its current value (the mask
+is not even asked for base types; for the others `fm, _ := Field(id)` only supplies the sub-mask), with the option and a rejecting
+mask with the zero value `ZeroWriter` emits. -/
+theorem required_still_written (P : Prog) (T : Tpl) (O : Opts) (cfg : Sites) (sm : MaskOpt) (env : Env) (j : Nat)
+    (f : FieldDef) (fs : List FieldDef) (v : GoVal) (vs : List GoVal) (ws : List (Nat × MW))
+    (hr : f.req = .required) (h : toMFields P T O cfg sm env j (f :: fs) (v :: vs) = .ok ws) :
+    ∃ w rest, ws = (pat 16 f.id, w) :: rest ∧ toMFields P T O cfg sm env (j + 1) fs vs = .ok rest ∧
+      (O.zeroReq = false → ∃ q, (if f.ty.isBase then (.ok (.none, true) : Res (MaskOpt × Bool)) else qField cfg sm f.id) = .ok q ∧
+          toM P T O cfg [] (if f.ty.isStruct then childMask O (env.get j) q.1 else q.1) f.ty v = .ok w) ∧
+      (O.zeroReq = true → ∀ m, qField cfg sm f.id = .ok (m, false) → w = zeroM f.ty) := by
+  simp only [toMFields, hr] at h
+  simp only [show (Req.required = Req.optional) = False from by simp, decide_false, Bool.false_and, Bool.false_eq_true, if_false,
+    decide_true, Bool.true_and] at h
+  by_cases hz : O.zeroReq = true
+  · simp only [hz, Bool.not_true, Bool.false_eq_true, if_false, Res.bind_eq_ok] at h
+    obtain ⟨q, hq, h⟩ := h
+    split at h
+    next hq2 =>
+      simp only [Res.bind_eq_ok] at h
+      obtain ⟨w, _, rest, h2, h3⟩ := h
+      cases h3
+      refine ⟨w, rest, rfl, h2, fun hf => by simp [hz] at hf, fun _ m hm => ?_⟩
+      rw [hq] at hm
+      cases hm
+      exact absurd hq2 (by simp)
+    next =>
+      simp only [Bool.true_and, Bool.or_true, decide_true, if_true, Res.bind_eq_ok] at h
+      obtain ⟨rest, h2, h3⟩ := h
+      cases h3
+      exact ⟨_, rest, rfl, h2, fun hf => by simp [hz] at hf, fun _ _ _ => rfl⟩
+  · have hz' : O.zeroReq = false := by simpa using hz
+    simp only [hz', Bool.not_false, if_true, Res.bind_eq_ok] at h
+    obtain ⟨q, hq, w, h1, rest, h2, h3⟩ := h
+    cases h3
+    exact ⟨w, rest, rfl, h2, fun _ => ⟨q, hq, h1⟩, fun hf => by simp [hz'] at hf⟩
+
+/- `nonrequired_filtered_absent` (FULL STATEMENT, FALSE on the tree as found): a field that is not required and that the mask
+   rejects is absent from the output. Under `field_mask_zero_required` the template emits the `else { ZeroWriter }` branch for EVERY
+   field, so a rejected default/optional(set) field is written with its zero value (fieldmask/README.md: zero value "of the required
+   field"). Witness: `struct S {1: i32 a, 2: i32 b}`, a = 5, b = 7, white mask `$.b`: field 1 is on the wire as 0. -/
+def exProg2 : Prog := { structs := [{ kind := 0, fields := [
+  { id := 1, req := .default, ty := .i32, dflt := none }, { id := 2, req := .default, ty := .i32, dflt := none }] }] }
+def exMask2 : Mask := .mk .struct false false .none true (.cons (.i 2) exLeaf .nil) false .nil false .nil
+
+example : Gen.Mask.write exProg2 Tpl.asFound { zeroReq := true } Sites.repaired [] (.some exMask2) 0 (.strct [.int 5, .int 7]) =
+    .ok [8, 0, 1, 0, 0, 0, 0, 8, 0, 2, 0, 0, 0, 7, 0] := by rfl
+example : Gen.Mask.write exProg2 Tpl.repaired { zeroReq := true } Sites.repaired [] (.some exMask2) 0 (.strct [.int 5, .int 7]) =
+    .ok [8, 0, 2, 0, 0, 0, 7, 0] := by rfl
+example : Gen.Mask.write exProg2 Tpl.asFound {} Sites.repaired [] (.some exMask2) 0 (.strct [.int 5, .int 7]) =
+    .ok [8, 0, 2, 0, 0, 0, 7, 0] := by rfl
+
+/-- **a non-required field the mask rejects is absent** — when `field_mask_zero_required` is off, or the zero-value branch is emitted
+for required fields only (the repaired template). -/
+theorem nonrequired_filtered_absent_partial (P : Prog) (T : Tpl) (O : Opts) (cfg : Sites) (sm m : MaskOpt) (env : Env) (j : Nat)
+    (f : FieldDef) (fs : List FieldDef) (v : GoVal) (vs : List GoVal)
+    (hn : f.req ≠ .required) (hq : qField cfg sm f.id = .ok (m, false)) (hz : O.zeroReq = false ∨ T.zeroAll = false) :
+    toMFields P T O cfg sm env j (f :: fs) (v :: vs) = toMFields P T O cfg sm env (j + 1) fs vs := by
+  simp only [toMFields, hq, bind]
+  have h1 : (decide (f.req = Req.required) && !O.zeroReq) = false := by simp [hn]
+  have h2 : (O.zeroReq && (T.zeroAll || decide (f.req = Req.required))) = false := by
+    rcases hz with h | h <;> simp [h, hn]
+  simp only [h1, h2, Bool.false_eq_true, if_false, ite_self]
+
+example : (Req.default ≠ Req.required) ∧ ((false = false) ∨ (true = false)) := ⟨by decide, Or.inl rfl⟩
+
+/-! ## field_mask_halfway -/
+
+/-- **halfway**: `Pass_FieldMask` keeps a mask that was set on a non-root struct; `Set_FieldMask` (the default) replaces it by the
+parent's sub-mask; a struct-typed field that is written is written under exactly that mask. -/
+theorem halfway (P : Prog) (T : Tpl) (O : Opts) (cfg : Sites) (sm own fm : MaskOpt) (m : Mask) (z : Bool) :
+    childMask { halfway := true, zeroReq := z } (some (.some m)) fm = .some m ∧
+    childMask { halfway := true, zeroReq := z } (some .none) fm = fm ∧
+    childMask { halfway := true, zeroReq := z } none fm = fm ∧
+    childMask { halfway := false, zeroReq := z } (some own) fm = fm ∧
+    (∀ (env : Env) (j : Nat) (f : FieldDef) (fs : List FieldDef) (v : GoVal) (vs : List GoVal) (q : MaskOpt),
+      f.req = .default → f.ty.isStruct = true → qField cfg sm f.id = .ok (q, true) →
+      toMFields P T O cfg sm env j (f :: fs) (v :: vs) = (do
+        let w ← toM P T O cfg [] (childMask O (env.get j) q) f.ty v
+        let ws ← toMFields P T O cfg sm env (j + 1) fs vs
+        Res.ok ((pat 16 f.id, w) :: ws))) := by
+  refine ⟨rfl, rfl, rfl, rfl, ?_⟩
+  intro env j f fs v vs q hd hs hq
+  simp [toMFields, hd, hs, hq, bind]
+
+end Props.C13
